@@ -94,6 +94,9 @@ func runLapackCase(t *vlib.T, lm *lmethod, vals map[string]int) {
 	modes := []int{lwNone}
 	if _, ok := r.pos["lwork"]; ok {
 		modes = []int{lwMin, lwOpt, lwQuery}
+		if r.noMinLwork {
+			modes = []int{lwOpt, lwQuery}
+		}
 	}
 	for _, d := range deltas {
 		for _, mode := range modes {
@@ -101,12 +104,13 @@ func runLapackCase(t *vlib.T, lm *lmethod, vals map[string]int) {
 			for k, x := range vals {
 				e.v[k] = x
 			}
-			lm.runBase(debugFailer{t}, e, d, mode, &st)
+			lm.runBase(debugFailer{t}, e, d, mode, true, &st)
 		}
 	}
 	t.Count("lapack_valid_calls", st.valid)
 	t.Count("lapack_guard_page_calls", st.guard)
 	t.Count("lapack_single_fault_calls", st.single)
+	t.Count("lapack_double_fault_calls", st.pair)
 	var ks []string
 	for k := range st.kinds {
 		ks = append(ks, k)
